@@ -147,7 +147,8 @@ def main():
     files = opt("--files", None)
     files = files.split(",") if files else FILES
     rnd = random.Random(seed)
-    cands = candidates("/repo", files, rnd)[:mx]
+    skip = int(opt("--skip", "0"))
+    cands = candidates("/repo", files, rnd)[skip:skip + mx]
     print("candidates: %d" % len(cands), flush=True)
     batches = [(i, cands[i::workers]) for i in range(workers)]
     t0 = time.time()
@@ -160,7 +161,7 @@ def main():
     for r in res:
         stat[r["status"]] = stat.get(r["status"], 0) + 1
     print("done in %.0f s: %s" % (time.time() - t0, stat))
-    outp = os.path.join(ROOT, "selftest", "automutate_results_seed%d.json" % seed)
+    outp = os.path.join(ROOT, "selftest", "automutate_results_seed%d_skip%d.json" % (seed, skip))
     json.dump({"stats": stat, "mutants": res}, open(outp, "w"), indent=1)
     surv = [r for r in res if r["status"] == "SURVIVOR"]
     for r in surv:
